@@ -36,8 +36,8 @@ def child(spec, timeout=240):
         return {"error": (p.stderr or p.stdout)[-600:]}
 
 
-def mkspec(threads, schedule):
-    return {"funcs": FUNCS, "threads": threads, "schedule": schedule}
+def mkspec(threads, schedule, nested=False):
+    return {"funcs": FUNCS, "threads": threads, "schedule": schedule, "nested": nested}
 
 
 # ---------------------------------------------------------------- model instance from the live data
@@ -178,8 +178,8 @@ B_POOL = [["get", "Fm-3m"], ["isid", "P 1"], ["get", 225], ["get", " fm-3M "], [
           ["get", "229"], ["isid", "I a -3 d"]]
 
 
-def plain_trace(calls):
-    o = child(mkspec({"A": calls}, []))
+def plain_trace(calls, nested=False):
+    o = child(mkspec({"A": calls}, [], nested))
     if "error" in o:
         raise RuntimeError("replay engine failed: " + o["error"])
     counts = {}
@@ -362,7 +362,7 @@ def finder_only(ctx):
 
     class Dummy:
         pass
-    order, counts = plain_trace(A_CALLS)
+    order, counts = plain_trace(A_CALLS, nested=True)
     idx = {sg.number: i for i, sg in enumerate(S.SpaceGroupList)}
     scheds = []
     for k, (f, l) in enumerate(order):
@@ -370,7 +370,7 @@ def finder_only(ctx):
             rot = k % len(B_POOL)
             scheds.append(({"A": A_CALLS, "B": B_POOL[rot:] + B_POOL[:rot]}, [["A", [f, l, occ]], ["B", None], ["A", None]]))
     with cf.ThreadPoolExecutor(min(core.NPROC, 16)) as ex:
-        outs = list(ex.map(child, [mkspec(t, s) for t, s in scheds]))
+        outs = list(ex.map(child, [mkspec(t, s, True) for t, s in scheds]))
     inst = Dummy()
     inst.S = S
     seen_keys = set()
@@ -393,7 +393,7 @@ def replay(ctx, case):
     if "threads" not in c:
         ctx.log("replay file names broken obligations only:", c)
         return run(ctx)
-    o = child(mkspec(c["threads"], c["schedule"]))
+    o = child(mkspec(c["threads"], c["schedule"], any(t and str(t[0]).startswith("<") for _, t in c["schedule"])))
     ctx.log("replayed schedule", c["schedule"], "->", o.get("results"), o.get("error", ""))
     ctx.count(("replay", json.dumps(c["schedule"])))
     ctx.count(("replay2", 0))
